@@ -1,6 +1,6 @@
 """Property table: Lean modules holding the property theorems, harness components tied to them."""
 
-COMPONENT_TIMEOUT = {"quick": 900, "thorough": 3000}
+COMPONENT_TIMEOUT = {"quick": 600, "thorough": 3000}
 
 TRUSTED_BASE = [
     "Lean 4.33.0 kernel (thorough tier: re-checked with leanchecker); axioms allowed: propext, Classical.choice, Quot.sound (audited with #print axioms on every run; no native_decide / bv_decide / sorry)",
